@@ -42,6 +42,9 @@ def configs(quick):
     # after it has been used for the runs above
     out.append(dict(dev="bar", tp=0.0, remesh=0.55, cur={"source": 4.0, "drain": -4.0}, A=0.4, opts=dict(dt_init=5e-3, adaptive=False)))
     out.append(dict(dev="bar", tp=0.5, remesh=1.3, cur={"source": 4.0, "drain": -4.0}, A=0.4, opts=dict(dt_init=1e-2, adaptive=False)))
+    # ... and the finely re-meshed device written to a file and read back: the run is made on the LOADED device
+    out.append(dict(dev="bar", tp=0.0, remesh=0.5, reload=True, cur={"source": 4.0, "drain": -4.0}, A=0.4, opts=dict(dt_init=5e-3, adaptive=False)))
+    out.append(dict(dev="bar", tp=0.5 + 0.25j, remesh=0.6, reload=True, cur={"source": 4.0, "drain": -4.0}, A=0.4, opts=dict(dt_init=5e-3, adaptive=False)))
     # runs that continue an earlier solution computed with ANOTHER terminal value: the value configured for this run
     # counts (unset -> the terminal sites, which start at the seed's pinned value, evolve freely)
     out.append(dict(dev="bar", tp=None, seed_tp=0.0, cur={"source": 4.0, "drain": -4.0}, A=0.4, opts=dict(dt_init=1e-2, adaptive=False)))
@@ -76,6 +79,13 @@ def eval_config(ctx, cfg, with_model=True):
             except ValueError:
                 continue
         ctx.count("runs_after_remeshing_a_used_device")
+    if cfg.get("reload"):
+        pth_ = os.path.join(str(ctx.work), "c06_dev.h5")
+        if os.path.exists(pth_):
+            os.remove(pth_)
+        dev.to_hdf5(pth_)
+        dev = tdgl.Device.from_hdf5(pth_)  # (the cached object stays the original)
+        ctx.count("runs_on_a_device_loaded_from_hdf5")
     tp = cfg["tp"]
     tag = dict(device=cfg["dev"], terminal_psi=(None if tp is None else [complex(tp).real, complex(tp).imag]), screening=bool(cfg["opts"].get("include_screening")), remeshed=cfg.get("remesh"), sites=len(dev.mesh.sites))
     first = None
